@@ -909,7 +909,7 @@ func r17c(c *core.Ctx) {
 func r17d(c *core.Ctx) {
 	nu := c.Anchor("internal/upstream", "NewUpstream")
 	if nu != nil {
-		for _, f := range nu.AnonFuncs {
+		for _, f := range closuresOf(nu) {
 			for _, call := range core.CallsNamed(f, "crypto/tls.Client") {
 				conn := call.(ssa.Value)
 				var hs ssa.CallInstruction
@@ -1138,7 +1138,7 @@ func r17f(c *core.Ctx) {
 		// every dial in closures of this arm uses this arm's result
 		cell := addrOfStoredValue(nu, a.call)
 		n := 0
-		for _, f := range nu.AnonFuncs {
+		for _, f := range closuresOf(nu) {
 			for _, call := range core.Calls(f) {
 				name := core.CallName(call)
 				var addrArg, netArg ssa.Value
@@ -1167,7 +1167,7 @@ func r17f(c *core.Ctx) {
 		_ = n
 	}
 	// every dial in NewUpstream's closures uses SOME arm's getDialAddr result (never the URL, never net/http's addr parameter)
-	for _, f := range nu.AnonFuncs {
+	for _, f := range closuresOf(nu) {
 		for _, call := range core.Calls(f) {
 			name := core.CallName(call)
 			var addrArg ssa.Value
